@@ -34,7 +34,7 @@ pub const SPEC: PropSpec = PropSpec {
         ("repair.socket_replaced", 20, 600),
         ("D1.teardown.silence", 100, 3000),
         ("D1.teardown.send_error", 10, 300),
-        ("D3.silent_link_due_for_teardown", 100, 3000),
+        ("D3.silent_links_watched", 100, 3000),
         ("D4.attempts", 500, 15_000),
         ("D4.plateau_gap_observed", 5, 150),
         ("D5.rejoined", 100, 3000),
